@@ -1,4 +1,4 @@
-import GdVerif.Lemmas.MasterRounds
+import GdVerif.Lemmas.MasterSound
 import GdVerif.Props.C16
 /-
   C09 — requests are the protocol's and go to the right port: the Valve master-server service.
@@ -93,38 +93,18 @@ last address. -/
 theorem C09_master_seed_is_last (ip : Bytes) (port : Nat) (data : Bytes) (a : Addr) :
     nextSeed ip port data = some a ↔
       ∃ page, parsePage.run data = .ok page ∧ page.getLast? = some a
-        ∧ ¬(ipText a.1 = zeroIp ∧ a.2 = 0) ∧ ¬(ipText a.1 = ip ∧ a.2 = port) := by
-  unfold nextSeed
-  cases hp : parsePage.run data with
-  | err k => simp
-  | crash => simp
-  | ok page =>
-    simp only [Res.ok.injEq, exists_eq_left']
-    generalize page.getLast? = o
-    cases o with
-    | none => simp
-    | some last =>
-      simp only [Option.some.injEq]
-      have b1 : (ipText last.1 == zeroIp && last.2 == 0) = true ↔ (ipText last.1 = zeroIp ∧ last.2 = 0) := by simp
-      have b2 : (ipText last.1 == ip && last.2 == port) = true ↔ (ipText last.1 = ip ∧ last.2 = port) := by simp
-      by_cases h1 : (ipText last.1 == zeroIp && last.2 == 0) = true
-      · simp only [h1, ↓reduceIte]
-        constructor
-        · intro h; cases h
-        · rintro ⟨rfl, hn, _⟩; exact absurd (b1.mp h1) hn
-      · simp only [h1, ↓reduceIte]
-        by_cases h2 : (ipText last.1 == ip && last.2 == port) = true
-        · simp only [h2, ↓reduceIte]
-          constructor
-          · intro h; cases h
-          · rintro ⟨rfl, _, hn⟩; exact absurd (b2.mp h2) hn
-        · simp only [h2, ↓reduceIte]
-          constructor
-          · intro h
-            injection h with h
-            subst h
-            exact ⟨rfl, fun h => h1 (b1.mpr h), fun h => h2 (b2.mpr h)⟩
-          · rintro ⟨rfl, _, _⟩; rfl
+        ∧ ¬(ipText a.1 = zeroIp ∧ a.2 = 0) ∧ ¬(ipText a.1 = ip ∧ a.2 = port) :=
+  nextSeed_iff ip port data a
+
+/-- The same at the level of bytes (the parser accepts exactly the protocol's page encoding, `parsePage_sound` /
+`C16_page_decodes`): a follow-up request is made exactly when the datagram received IS `FF FF FF FF 66 0A` followed by
+the 6-byte encodings of a non-empty list of entries whose last address is neither `0.0.0.0:0` nor the seed of the
+request it answers — and it is seeded with that last address. -/
+theorem C09_master_seed_is_last_of_datagram (ip : Bytes) (port : Nat) (data : Bytes) (a : Addr) :
+    nextSeed ip port data = some a ↔
+      ∃ es, data = encPage es ∧ (∀ x ∈ es, WFAddr x) ∧ es.getLast? = some a
+        ∧ ¬(ipText a.1 = zeroIp ∧ a.2 = 0) ∧ ¬(ipText a.1 = ip ∧ a.2 = port) :=
+  nextSeed_spec ip port data a
 
 /-- Every request of a query, read back by the reference grammar of the Master Server Query Protocol, denotes the
 region, the seed text `a.b.c.d:port` and exactly the filters of each group — for every iteration order of the three
